@@ -21,6 +21,8 @@ from pyvc.loader import REPO   # noqa: E402
 if REPO not in sys.path:
     sys.path.insert(0, REPO)       # replays import the tree the VCs came from (SCMO_REPO, default /repo)
 OUT = os.environ.get('VERIF_OUT', HERE)      # where evidence/ and replays/ are written (default: /verif itself)
+if os.environ.get('VERIF_ONLY') and 'VERIF_OUT' not in os.environ:
+    OUT = os.path.join(HERE, '.scratch', 'only_out')      # a filtered debugging run never overwrites the registered evidence
 
 from pyvc import contract as C   # noqa: E402
 from pyvc.units import Lemma, Bounded, run_unit   # noqa: E402
